@@ -812,7 +812,15 @@ pub fn run(ctx: &Ctx) {
         let s = v["span"][0].as_u64().unwrap_or(0) as usize;
         let e = v["span"][1].as_u64().unwrap_or(0) as usize;
         w.set_text(&text);
-        if v["check"] == "backend" {
+        if v["check"] == "backend-lang" {
+            // (w25) one document of the all-languages Backend stream
+            let t: String = text.iter().collect();
+            let lang = v["lang"].as_str().unwrap_or("plaintext").to_string();
+            let lints = lints_for_lang(&lang, &t).unwrap_or_default();
+            let via_change = v["via_change"].as_bool().unwrap_or(false);
+            let docs = vec![LangDoc { uri: format!("file:///c08-backend-lang/replay.{}", lang.replace(' ', "_")), lang, text: t, lints, via_change }];
+            run_backend_langs(&mut sess, ctx, docs);
+        } else if v["check"] == "backend" {
             let t: String = text.iter().collect();
             run_backend(&mut sess, ctx, &[(v["lang"].as_str().unwrap_or("plaintext").to_string(), t)]);
         } else if v["check"] == "real" {
@@ -908,6 +916,11 @@ pub fn run(ctx: &Ctx) {
     let texts: Vec<(String, String)> = backend_texts(&mut rng, nb).into_iter().enumerate().map(|(i, t)| ((if t.contains("# ") || i % 7 == 6 { "markdown" } else { "plaintext" }).to_string(), t)).collect();
     run_backend(&mut sess, ctx, &texts);
 
+    // 6. (w25) the same over every language id, several documents open at once
+    let per = if ctx.tier == Tier::Thorough { 16 } else { 4 };
+    let docs = lang_docs(&mut rng, per, &mut sess);
+    run_backend_langs(&mut sess, ctx, docs);
+
     sess.finish(
         "corpus (pinned unit-test texts, finding witnesses); every text of length ≤5 (quick) / ≤6 (thorough) over {a, 😀, \\n, \\r} × every index (one out of bounds) × every position with line ≤4, col ≤8 × every span (incl. out of bounds) × 3 suggestion kinds × every caret and caret-to-end request inside the span; random texts of 0–40 pieces with astral/combining/ZWJ characters, tabs, CRLF, Unicode line separators (1 in 8 with lone \\r); real curated rules on rule-test sentences joined by \\n / \\r\\n; the same through the real Backend (didOpen → publishDiagnostics → codeAction at every flagged position) on texts beginning with a byte-order mark / astral character / CRLF. Non-trivial = text with a newline or a non-BMP character (exhaustive), every random text; distinct by text.",
         true,
@@ -920,4 +933,239 @@ fn real_world() -> DocumentState {
     let mut linter = LintGroup::new_curated(dict, Dialect::American);
     linter.config.fill_with_curated();
     DocumentState { linter, url: Url::parse("file:///c08.txt").unwrap(), ..Default::default() }
+}
+
+// ------------------------------------------------------------------------------------------
+// (w25) the Backend stream over EVERY language id (the property quantifies over them; the stream
+// above only opens plaintext and Markdown documents), with all documents of a batch open at the
+// same time, half of the prose documents installed by didChange over a decoy text, and
+// `codeActions.ForceStable` switched on for every other batch
+// ------------------------------------------------------------------------------------------
+
+/// harper-core's lints for `text` opened as `lang` under the default server configuration (curated
+/// rules, American, empty user / file dictionaries; a source file's own identifiers accepted)
+fn lints_for_lang(lang: &str, text: &str) -> Option<Vec<Lint>> {
+    use harper_core::parsers::{CollapseIdentifiers, MarkdownOptions, Parser};
+    use harper_core::{MergedDictionary, MutableDictionary};
+    let md = MarkdownOptions::default();
+    let source: Vec<char> = text.chars().collect();
+    let mut dict = MergedDictionary::new();
+    dict.add_dictionary(FstDictionary::curated());
+    dict.add_dictionary(Arc::new(MutableDictionary::new()));
+    dict.add_dictionary(Arc::new(MutableDictionary::new()));
+    let ident = if let Some(ts) = harper_comments::CommentParser::new_from_language_id(lang, md) {
+        ts.create_ident_dict(&source)
+    } else if matches!(lang, "literate haskell" | "lhaskell") {
+        harper_literate_haskell::LiterateHaskellParser::new_markdown(md).create_ident_dict(&source, md)
+    } else {
+        None
+    };
+    let collapse = ident.is_some();
+    if let Some(id) = ident {
+        dict.add_dictionary(Arc::new(id));
+    }
+    let dict = Arc::new(dict);
+    let mut parser: Box<dyn Parser> = crate::frontends::parser_for(lang, false)?;
+    if collapse {
+        parser = Box::new(CollapseIdentifiers::new(parser, Box::new(dict.clone())));
+    }
+    let doc = Document::new(text, &parser, &dict);
+    let mut g = LintGroup::new_curated(dict.clone(), Dialect::American);
+    g.config.fill_with_curated();
+    Some(g.lint(&doc))
+}
+
+struct LangDoc {
+    lang: String,
+    uri: String,
+    text: String,
+    lints: Vec<Lint>,
+    /// installed by didChange over a decoy text (prose languages only)
+    via_change: bool,
+}
+
+/// the documents of the stream: every language id × `per` texts (rule-test sentences, some with an
+/// astral / combining prefix, embedded the way `frontends::embed` writes a file of that language)
+fn lang_docs(rng: &mut Rng, per: usize, sess: &mut Session) -> Vec<LangDoc> {
+    let sents = crate::corpus::sentences();
+    let mut out = vec![];
+    // tree-sitter-dart can hang (recorded under C01); the server has no watchdog
+    for (li, lang) in crate::frontends::language_ids().into_iter().filter(|l| l != "dart").enumerate() {
+        // tree-sitter documents are never changed: the second update drops the identifier dictionary
+        // (C09's `c09-ident-dict-dropped`), which may add lints
+        let tree_sitter = harper_comments::CommentParser::new_from_language_id(&lang, Default::default()).is_some() || lang.contains("haskell");
+        for j in 0..per {
+            let via_change = !tree_sitter && j % 2 == 1;
+            let mut prose = String::new();
+            prose.push_str(*rng.pick(&["", "😀 ", "e\u{301}é ", "ａｂ ", ""]));
+            prose.push_str(&sents[rng.below(sents.len())]);
+            if via_change || rng.chance(1, 2) {
+                prose.push_str(if via_change { "\r\n" } else { *rng.pick(&["\n", " 𝒳 ", "\r\n"]) });
+                prose.push_str(&sents[rng.below(sents.len())]);
+            }
+            let mut text = crate::frontends::embed(&lang, &prose, li + j + rng.below(4));
+            if via_change && j % 4 == 1 {
+                // what an editor buffer can start with
+                text.insert(0, '\u{feff}');
+            }
+            let t2 = text.clone();
+            let l2 = lang.clone();
+            let lints = match guarded(move || lints_for_lang(&l2, &t2)) {
+                Ok(Some(l)) => l,
+                Ok(None) => continue,
+                Err(_) => {
+                    sess.count("backend-lang:lint-panicked(C01)");
+                    continue;
+                }
+            };
+            let ext = lang.replace(' ', "_");
+            out.push(LangDoc { uri: format!("file:///c08-backend-lang/d{}-{}.{}", li, j, ext), lang: lang.clone(), text, lints, via_change });
+        }
+    }
+    out
+}
+
+/// One batch through the real `Backend`: all documents opened first (several documents open at
+/// once), then every document's published diagnostics and the code actions at every position of
+/// every flagged range are read the way a client reads them.
+fn eval_backend_langs(sess: &mut Session, ls: &mut LsSession, docs: &[LangDoc], force_stable: bool) -> Result<(), LsError> {
+    let cfg = json!({"harper-ls": {"codeActions": {"ForceStable": force_stable}}});
+    for d in docs.iter() {
+        if d.via_change {
+            ls.notify("textDocument/didOpen", did_open(&d.uri, &d.lang, "\u{feff}😀😀 Decoy txet on anothr line.\r\n\r\n"))?;
+            ls.quiesce(&cfg)?;
+            ls.notify("textDocument/didChange", json!({"textDocument": {"uri": d.uri, "version": 2}, "contentChanges": [{"text": d.text}]}))?;
+            sess.count("backend-lang:installed-by-didChange");
+        } else {
+            ls.notify("textDocument/didOpen", did_open(&d.uri, &d.lang, &d.text))?;
+        }
+        ls.quiesce(&cfg)?;
+    }
+    for d in docs {
+        let src: Vec<char> = d.text.chars().collect();
+        let url = Url::parse(&d.uri).unwrap();
+        let inp = |i: usize, s: usize, e: usize, p: Option<Position>| {
+            let mut v = input_json(&src, s, e, &[], "backend-lang", i, p);
+            v["lang"] = json!(d.lang);
+            v["force_stable"] = json!(force_stable);
+            v["via_change"] = json!(d.via_change);
+            v
+        };
+        sess.count(&format!("backend-lang:{}", d.lang));
+        sess.count(&format!("backend-lang:lints:{}", d.lints.len().min(5)));
+        if src.iter().any(|c| c.len_utf16() == 2) {
+            sess.count("backend-lang:astral-in-text");
+        }
+        if d.text.contains("\r\n") {
+            sess.count("backend-lang:crlf-in-text");
+        }
+        if d.text.starts_with('\u{feff}') {
+            sess.count("backend-lang:starts-with-BOM");
+        }
+        let Some(publ) = ls.last_publication(&d.uri).cloned() else {
+            sess.fail("no-publication", format!("didOpen of a {} document was not answered by a publishDiagnostics", d.lang), inp(0, 0, 0, None), None);
+            continue;
+        };
+        let diags: Vec<Diagnostic> = serde_json::from_value(publ).unwrap_or_default();
+        let last_line_start = src.iter().rposition(|c| *c == '\n').map(|i| i + 1).unwrap_or(0);
+        let mut want: Vec<(usize, usize, String)> = d.lints.iter().map(|l| (l.span.start, l.span.end, l.message.clone())).collect();
+        let mut got: Vec<(usize, usize, String)> = diags.iter().map(|x| (client_offset(&src, x.range.start), client_offset(&src, x.range.end), x.message.clone())).collect();
+        want.sort();
+        got.sort();
+        sess.o();
+        if want != got {
+            let miss = want.iter().find(|w| !got.contains(w)).or(got.iter().find(|g| !want.contains(g))).cloned().unwrap_or_default();
+            let known_shape = src.windows(2).any(|w| w[0] == '\r' && w[1] != '\n') || src.last() == Some(&'\r') || (src.contains(&'\n') && (miss.0 >= last_line_start || miss.1 >= last_line_start));
+            let class = if known_shape { classify(&src, miss.1, src[..miss.1.min(src.len())].iter().filter(|c| **c == '\n').count(), "range-misplaced") } else { "range-misplaced".to_string() };
+            sess.fail(
+                &class,
+                format!("through the real Backend, {} document: the diagnostics a client reads ({:?}) are not harper-core's lints for the text it sent ({:?})", d.lang, got.iter().take(4).collect::<Vec<_>>(), want.iter().take(4).collect::<Vec<_>>()),
+                inp(miss.0, miss.0, miss.1, None),
+                None,
+            );
+            continue;
+        }
+        if !d.lints.is_empty() {
+            sess.nontrivial(&format!("backend-lang|{}|{}", d.lang, d.text));
+        }
+        for lint in d.lints.iter().take(8) {
+            let (s, e) = (lint.span.start, lint.span.end);
+            if !(s <= e && e <= src.len()) || inside_crlf(&src, s) || inside_crlf(&src, e) {
+                continue;
+            }
+            // carets at every position inside, plus ONE selection request per lint: from its second
+            // position (its first when it has one character) to its end. A selection that ends on the last
+            // line of a text without trailing newline panics inside the server (`c08-last-line`) and
+            // would end the session, so such lints get carets only.
+            let mut reqs: Vec<(usize, Position, Position)> = (s..e).take(24).filter_map(|i| client_encode(&src, i).map(|p| (i, p, p))).collect();
+            let i0 = (s + 1).min(e - 1).max(s);
+            if let (Some(p), Some(q)) = (client_encode(&src, i0), client_encode(&src, e)) {
+                let fine = |idx: usize, pos: Position| classify(&src, idx, pos.line as usize, "fine") == "fine";
+                if s < e && p != q && fine(i0, p) && fine(e, q) {
+                    reqs.push((i0, p, q));
+                    sess.count("backend-lang:selection-requests");
+                }
+            }
+            for (i, p, q) in reqs {
+                let params = json!({"textDocument": {"uri": d.uri}, "range": {"start": {"line": p.line, "character": p.character}, "end": {"line": q.line, "character": q.character}}, "context": {"diagnostics": []}});
+                let resp = ls.request_sync("textDocument/codeAction", params, &cfg)?;
+                sess.o();
+                let acts: Vec<CodeActionOrCommand> = serde_json::from_value(resp["result"].clone()).unwrap_or_default();
+                let tes = text_edits(&acts, &url);
+                let mut ok = resp.get("error").is_none();
+                for sg in &lint.suggestions {
+                    let mut w = src.clone();
+                    if guarded(|| sg.apply(lint.span, &mut w)).is_err() {
+                        continue;
+                    }
+                    let title = sg.to_string();
+                    if !tes.iter().any(|(t, te)| *t == title && client_apply(&src, te) == w) {
+                        ok = false;
+                    }
+                }
+                // observation (not demanded): the HarperIgnoreLint command offered here carries this very lint
+                let carries = acts.iter().any(|a| match a {
+                    CodeActionOrCommand::Command(c) if c.command == "HarperIgnoreLint" => c
+                        .arguments
+                        .as_ref()
+                        .and_then(|a| a.get(1))
+                        .and_then(|l| serde_json::from_value::<Lint>(l.clone()).ok())
+                        .map(|l| l.span == lint.span && l.message == lint.message)
+                        .unwrap_or(false),
+                    _ => false,
+                });
+                sess.count(if carries { "backend-lang:ignore-command-carries-the-lint" } else { "backend-lang:ignore-command-for-the-lint-absent" });
+                if ok {
+                    sess.count("backend-lang:actions-found");
+                } else {
+                    let class = classify(&src, i, p.line as usize, "code-action-missed");
+                    sess.fail(&class, format!("through the real Backend, {} document (one of {} open): code actions at {} (character {}) inside lint [{},{}) lack one of its fixes, answer with an error, or the fix applied by a client differs from Suggestion::apply", d.lang, docs.len(), show_pos(p), i, s, e), inp(i, s, e, Some(p)), None);
+                }
+            }
+        }
+    }
+    for d in docs {
+        ls.notify("textDocument/didClose", did_close(&d.uri))?;
+    }
+    Ok(())
+}
+
+fn run_backend_langs(sess: &mut Session, ctx: &Ctx, docs: Vec<LangDoc>) {
+    set_home(&ctx.out.join("c08-home"));
+    let cfg = json!({"harper-ls": {}});
+    let t0 = std::time::Instant::now();
+    let r: Result<(), LsError> = (|| {
+        let mut ls = LsSession::start()?;
+        ls.initialize(&cfg)?;
+        for (b, batch) in docs.chunks(6).enumerate() {
+            eval_backend_langs(sess, &mut ls, batch, b % 2 == 1)?;
+        }
+        ls.shutdown(&cfg)?;
+        Ok(())
+    })();
+    sess.monitor("the in-process language server completed the C08 all-languages session", r.is_ok());
+    if let Err(e) = r {
+        sess.count(&format!("backend-lang:session-error:{}", e.to_string().chars().take(60).collect::<String>()));
+    }
+    sess.add("backend-lang:wall-ms", t0.elapsed().as_millis() as u64);
 }
